@@ -332,7 +332,8 @@ def _apply(df, tab, op, r, r2, c, s1, s2):
     if op == "append_column":
         ln = _pick([n, n - 1, n + 1], s1)
         assume(ln >= 0)
-        nm, explicit = _pick([("fresh", False), ("fresh", True), (tab.names[0], False), (tab.names[-1], True)], s2)
+        nm, explicit = _pick([("fresh", False), ("fresh", True), (tab.names[0], False), (tab.names[-1], True)], s2 % 4)
+        badtype = s2 >= 4                                  # a column type that cannot be stored
         # the new column: text when the table starts with a number column and vice versa
         txt = tab.kinds[0] != "O"
         col = [("t%d" % i if txt else 10 + i) for i in range(ln)]
@@ -340,8 +341,11 @@ def _apply(df, tab, op, r, r2, c, s1, s2):
             # an empty column has no first cell to take the type from
             explicit = True
         from nixio import DataType
-        out = call(lambda: df.append_column(col, nm, datatype=((str if txt else DataType.Int64) if explicit else None)))
-        if ln != n or nm in tab.names:
+        dtyp = (str if txt else DataType.Int64) if explicit else None
+        if badtype:
+            dtyp = object
+        out = call(lambda: df.append_column(col, nm, datatype=dtyp))
+        if ln != n or nm in tab.names or badtype:
             return out, [], [same]
         t = tab.copy()
         t.names.append(nm)
@@ -513,7 +517,7 @@ def _ob_one_op(variant: int, n: int, r: int, r2: int, c: int, s1: int, s2: int) 
     pre: 0 <= n <= 3
     pre: -8 <= c <= 8
     pre: 0 <= s1 < 7
-    pre: 0 <= s2 < 4
+    pre: 0 <= s2 < 5
     post: __return__
     """
     op, sc = PART
@@ -540,7 +544,7 @@ def _ob_two_ops(n: int, op2: int, s1: int, r_b: int, c_b: int, s1_b: int, s2_b: 
     pre: 0 <= s1 < 2
     pre: -8 <= c_b <= 8
     pre: 0 <= s1_b < 7
-    pre: 0 <= s2_b < 4
+    pre: 0 <= s2_b < 5
     post: __return__
     """
     op1, sc = PART
